@@ -10,6 +10,8 @@ here on `List Nat` (`MONITOR`).
 import LndModel.Prelude.Lines
 import LndModel.C10.Model
 import LndModel.C10.Wire
+import LndModel.C10.Failure
+import LndModel.C10.Prim
 
 open LndModel LndModel.Lines LndModel.C10
 
@@ -391,6 +393,99 @@ def stepProbe (s : St) (ws : List String) (line : String) : IO St := do
         s ← monitor s "decoder-consumed-length" s!"decoder={name} l={l} used={used} (accepted, consumed a different number of bytes than declared; Stream.decode continues behind what was consumed)"
   return s
 
+/-! ## primitive record codecs on the value level (`pe` / `pd` lines of the tlv stream) -/
+
+def primWidth (kind : String) (n : Nat) : Nat := if kind == "b" then 1 else n
+
+/-- `pe <kind> <n> <v> => <hex> size=<s>`: encoder of a NUMBER. -/
+def stepPrimEnc (s : St) (ws : List String) (line : String) : IO St := do
+  let res := resWords ws
+  let kind := ws.getD 1 "?"
+  let n := (ws.getD 2 "0").toNat!
+  let v := (ws.getD 3 "0").toNat!
+  let tag := res.headD "?"
+  let mut s := bump { s with ops := s.ops + 1 } s!"prim_enc_{kind}{n}"
+  if tag == "panic" then
+    return ← monitor s "panic" s!"primitive encoder panicked: {line.take 100}"
+  if tag == "err" then
+    return ← mismatch s s!"primitive encoder failed: {line.take 100}"
+  s := { s with nontrivial := s.nontrivial + 1 }
+  let out := if tag == "-" then some [] else hexBytes? tag
+  let size := (kvNat? res "size").getD 0
+  match out with
+  | none => mismatch s s!"bad hex: {line.take 80}"
+  | some out =>
+    -- (S) spec: the value of the Go type's width, big-endian; truncated kinds without leading
+    -- zero bytes and with the shortest possible length; the declared size is the written length
+    let w := primWidth kind n
+    let vt := if kind == "b" then v % 2 else v % (256 ^ w)
+    if specNat out != vt then
+      s ← monitor s "prim-encode-value" s!"kind={kind}{n} v={v}: written bytes {bytesHex out} denote {specNat out}, expected {vt}"
+    if kind == "t" then
+      if out.length > w || out.head? == some 0 then
+        s ← monitor s "prim-encode-not-minimal" s!"kind={kind}{n} v={v}: written bytes {bytesHex out} are not the minimal truncated form"
+    else if out.length != w then
+      s ← monitor s "prim-encode-value" s!"kind={kind}{n} v={v}: {out.length} bytes written, width is {w}"
+    if size != out.length then
+      s ← monitor s "prim-size" s!"kind={kind}{n} v={v}: record Size()={size}, bytes written={out.length}"
+    -- (X) model
+    let m : Bytes := if kind == "t" then encTUint n vt else if kind == "b" then encBool (vt == 1) else encUint n vt
+    let msz := if kind == "t" then sizeTUint n vt else w
+    if ofU8 m != out || msz != size then
+      s ← mismatch s s!"prim enc kind={kind}{n} v={v}: model={bytesHex (ofU8 m)} size={msz} impl={bytesHex out} size={size}"
+    return s
+
+/-- `pd <kind> <n> <hex> => ok v=<v> enc=<hex> | err <name>`: decoder on exactly these bytes. -/
+def stepPrimDec (s : St) (ws : List String) (line : String) : IO St := do
+  let res := resWords ws
+  let kind := ws.getD 1 "?"
+  let n := (ws.getD 2 "0").toNat!
+  let inHex := ws.getD 3 "-"
+  let tag := res.headD "?"
+  let mut s := bump { s with ops := s.ops + 1 } s!"prim_dec_{kind}{n}_{tag}"
+  if tag == "panic" then
+    return ← monitor s "panic" s!"primitive decoder panicked: {line.take 100}"
+  match (if inHex == "-" then some [] else hexBytes? inHex) with
+  | none => mismatch s s!"bad hex: {line.take 80}"
+  | some inp =>
+    let w := primWidth kind n
+    -- (S) spec: which byte strings are the encoding of a value of this kind?
+    let canonical :=
+      if kind == "t" then inp.length ≤ w && inp.head? != some 0
+      else if kind == "b" then inp == [0] || inp == [1]
+      else inp.length == w
+    if tag == "ok" then
+      s := { s with nontrivial := s.nontrivial + 1 }
+      let v := (kvNat? res "v").getD 0
+      let enc := kv? res "enc"
+      if !canonical then
+        s ← monitor s "prim-accept-noncanonical" s!"kind={kind}{n}: decoder accepted {inHex} (not the canonical encoding of any value)"
+      else
+        if v != specNat inp then
+          s ← monitor s "prim-decode-value" s!"kind={kind}{n}: {inHex} decoded as {v}, denotes {specNat inp}"
+        if enc != some inHex then
+          s ← monitor s "prim-reencode" s!"kind={kind}{n}: {inHex} decoded and written back as {enc.getD "?"}"
+    else if tag == "err" then
+      if canonical then
+        s ← monitor s "prim-reject-canonical" s!"kind={kind}{n}: decoder rejected the canonical encoding {inHex} ({(res[1]?).getD "?"})"
+    else
+      s ← mismatch s s!"unparsed result: {line.take 80}"
+    -- (X) model
+    let b := toU8 inp
+    let m : Except PErr Nat :=
+      if kind == "t" then decTUint n b
+      else if kind == "b" then (decBool b).map (fun x => if x then 1 else 0)
+      else decUint n b
+    match m with
+    | .ok mv =>
+      if !(tag == "ok" && kvNat? res "v" == some mv) then
+        s ← mismatch s s!"prim dec kind={kind}{n} in={inHex}: model ok v={mv}, impl={tag} {(res[1]?).getD ""}"
+    | .error e =>
+      let en := match e with | .typeLen => "typelen" | .notMinimal => "value" | .value => "value"
+      if !(tag == "err" && res[1]? == some en) then
+        s ← mismatch s s!"prim dec kind={kind}{n} in={inHex}: model err {en}, impl={tag} {(res[1]?).getD ""}"
+    return s
+
 /-! ## lnwire stream -/
 
 /-- TLV record types each message's `Decode` extracts into typed fields, for the messages whose
@@ -547,6 +642,9 @@ def stepMsg (s : St) (ws : List String) (line : String) (isFail : Bool) : IO St 
       s := { s with maxSize := max s.maxSize size }
       if size > 65535 then
         s ← monitor s "size-bound" s!"re-encoding has {size} bytes"
+      -- BOLT 4: an encoded failure is the fixed-size packet 2 + 256 + 2 (theorem `failure_size`)
+      if isFail && size != 260 then
+        s ← monitor s "failure-size" s!"EncodeFailure produced {size} bytes (must be 260): in={inHex.take 80}"
       if res.contains "redecerr" then
         s := bump s s!"{pre}_ok_redecerr"
         s ← monitor s "reencode-rejected" s!"enc(dec in) is rejected by the decoder: in={inHex.take 80}"
@@ -621,24 +719,54 @@ def stepMsg (s : St) (ws : List String) (line : String) (isFail : Bool) : IO St 
     match hexBytes? inHex with
     | none => s ← mismatch s "bad hex"
     | some inp =>
-      match (if isFail then Wire.modelFailure (toU8 inp) else Wire.modelMessage (toU8 inp)) with
-      | none => pure ()
-      | some out =>
-        if !isFail then s := bump s (replayKey s.mtype out)
-        s := if isFail then bump s "fail_replayed_by_model" else
-             { s with modelled := s.modelled + 1,
-                      modelledTypes := if s.modelledTypes.contains s.mtype then s.modelledTypes else s.mtype :: s.modelledTypes }
+      if isFail then
+        -- every onion failure input is replayed by the TOTAL failure model (all registered codes)
+        let out := Wire.modelFailureX Wire.dropUnknownAtHead (toU8 inp)
+        let code := match u16At inp 0 with
+          | some l => (u16At ((inp.drop 2).take l) 0).getD 0
+          | none => 0
+        let lay := match Wire.failLayout code with
+          | some (.fixed _) => "fixed" | some (.update _ _) => "update" | some .details => "details"
+          | some .onionPayload => "onionpayload" | none => "unregistered"
         match out with
         | .reject =>
+          s := bump s s!"fail_replayed_{lay}_rej"
           if tag != "err" then
-            s ← mismatch s s!"type={s.mtype}: model rejects, impl={tag} in={inHex.take 80}"
+            s ← mismatch s s!"onion failure: model rejects, impl={tag} in={inHex.take 80}"
+        | .encErr =>
+          s := bump s s!"fail_replayed_{lay}_encerr"
+          if !(tag == "ok" && res[1]? == some "encerr") then
+            s ← mismatch s s!"onion failure: model says EncodeFailure refuses, impl={tag} {(res[1]?).getD ""} in={inHex.take 80}"
         | .accept enc =>
+          s := bump s s!"fail_replayed_{lay}_acc"
           let encHex := bytesHex (ofU8 enc)
           if tag != "ok" then
-            s ← mismatch s s!"type={s.mtype}: model accepts, impl={tag} in={inHex.take 80}"
+            s ← mismatch s s!"onion failure: model accepts, impl={tag} in={inHex.take 80}"
           else if (kv? res "enc") != some encHex then
-            s ← mismatch s s!"type={s.mtype}: re-encoding differs model={encHex.take 60}..{encHex.drop (encHex.length - 20)} impl={((kv? res "enc").getD "?").take 60}"
+            s ← mismatch s s!"onion failure code={code}: re-encoding differs model={encHex.take 80} impl={((kv? res "enc").getD "?").take 80} in={inHex.take 80}"
+      else
+        match Wire.modelMessage (toU8 inp) with
+        | none => pure ()
+        | some out =>
+          if !isFail then s := bump s (replayKey s.mtype out)
+          s := if isFail then bump s "fail_replayed_by_model" else
+               { s with modelled := s.modelled + 1,
+                        modelledTypes := if s.modelledTypes.contains s.mtype then s.modelledTypes else s.mtype :: s.modelledTypes }
+          match out with
+          | .reject =>
+            if tag != "err" then
+              s ← mismatch s s!"type={s.mtype}: model rejects, impl={tag} in={inHex.take 80}"
+          | .accept enc =>
+            let encHex := bytesHex (ofU8 enc)
+            if tag != "ok" then
+              s ← mismatch s s!"type={s.mtype}: model accepts, impl={tag} in={inHex.take 80}"
+            else if (kv? res "enc") != some encHex then
+              s ← mismatch s s!"type={s.mtype}: re-encoding differs model={encHex.take 60}..{encHex.drop (encHex.length - 20)} impl={((kv? res "enc").getD "?").take 60}"
   return s
+
+/-- kinds of generated WELL-FORMED values (messages and onion failures): the value clauses apply. -/
+def genKind (k : String) : Bool :=
+  k == "gen" || k == "gen-fit" || k == "gen-addrs" || k == "gen-feat" || k == "fail-gen"
 
 def stepVal (s : St) (ws : List String) (_line : String) : IO St := do
   let res := resWords ws
@@ -649,7 +777,7 @@ def stepVal (s : St) (ws : List String) (_line : String) : IO St := do
     s ← monitor s "panic" "WriteMessage/ReadMessage panicked on a generated value"
   else if tag == "encerr" then
     s := bump s "val_encerr"
-    if s.kind == "gen" || s.kind == "gen-fit" || s.kind == "gen-addrs" then
+    if genKind s.kind then
       s ← monitor s "valid-value-encode-error" "WriteMessage failed on a well-formed value within the size bound"
   else
     s := { s with nontrivial := s.nontrivial + 1 }
@@ -659,11 +787,11 @@ def stepVal (s : St) (ws : List String) (_line : String) : IO St := do
       s ← monitor s "size-bound" s!"WriteMessage produced {size} bytes for a value (limit 65535)"
     if res.contains "decerr" then
       s := bump s "val_decerr"
-      if s.kind == "gen" || s.kind == "gen-fit" || s.kind == "gen-addrs" then
+      if genKind s.kind then
         s ← monitor s "valid-rejected" s!"encoding of a generated value is rejected: {tag.take 80}"
     else if kvNat? res "rt" != some 1 then
       s := bump s "val_rt0"
-      if s.kind == "gen" || s.kind == "gen-fit" || s.kind == "gen-addrs" then
+      if genKind s.kind then
         s ← monitor s "value-roundtrip" s!"dec(enc v) differs from v: enc={tag.take 80}"
     else
       s := bump s "val_rt1"
@@ -691,9 +819,12 @@ def step (s : St) (line : String) : IO St := do
   | "st" :: _ => stepStream s ws line
   | "bs" :: _ => stepBigSizeRec s ws line
   | "probe" :: _ => stepProbe s ws line
+  | "pe" :: _ => stepPrimEnc s ws line
+  | "pd" :: _ => stepPrimDec s ws line
   | "msg" :: _ => stepMsg s ws line false
   | "fail" :: _ => stepMsg s ws line true
   | "val" :: _ => stepVal s ws line
+  | "fval" :: _ => stepVal s ws line
   | [] => return s
   | _ => mismatch s s!"unparsed line: {line.take 60}"
 
